@@ -52,9 +52,10 @@ func genSessionOps(rng *RNG, c nwCfg, n int, nkeys int, farFuture bool) []wop {
 		// float64 keys equal as float32
 		keyNames = [][]string{{"92", "93", "94"}, {"93", "92", "1"}, {"92", "2", "93"}}[rng.Intn(3)]
 	} else if rng.Intn(3) == 0 {
-		keyNames = [][]string{{"90", "2", "3"}, {"90", "91", "3"}, {"1", "90", "91"}}[rng.Intn(3)]
+		// 95 / 96 / 97: the texts `\N`, `|`, `\|` (the encoder's NULL marker and separator as legal key values)
+		keyNames = [][]string{{"90", "2", "3"}, {"90", "91", "3"}, {"1", "90", "91"}, {"90", "95", "91"}, {"95", "90", "96"}, {"96", "97", "95"}}[rng.Intn(6)]
 		if nkeys == 1 {
-			keyNames = []string{[]string{"90", "91"}[rng.Intn(2)]}
+			keyNames = []string{[]string{"90", "91", "95"}[rng.Intn(3)]}
 		}
 	}
 	mkAdd := func() wop {
